@@ -305,6 +305,34 @@ def r4_chebyshev(ctx):
         why = 'norm[i] is not the Euclidean norm of row i of A for every row (rows=%s index=%s value=%s unconditional=%s)' % (src_ok, idx_ok, val_ok, not lits)
     elif len(wn) > 1:
         why = 'the norm column is written at %d sites' % len(wn)
+    else:
+        # second idiom: the (single-column) norm array is swept together with the rows: for (entry, row) in zip(norm.iter_mut(), A.outer_iter()) { *entry = ‖row‖ }
+        zw = []
+        for w in assigns(b, R):
+            t = w.target
+            if t[0] == 'field' and t[2] == '0' and is_call(t[1], 'Iterator::next') and is_call(t[1][2][0], 'zip', 'Iterator::zip') and t[1][2][0][2][0] == norm:
+                zw.append(w)
+        if len(zw) == 1:
+            w = zw[0]
+            it = w.target[1]
+            rows = it[2][0][2][1]
+            src_ok = is_call(rows, 'ArrayBase::outer_iter', 'ArrayBase::rows', 'ArrayBase::axis_iter') and rows[2][0] == SM and \
+                (not is_call(rows, 'ArrayBase::axis_iter') or s(rows[2][1]) == AX0)
+            v = w.value
+            val_ok = False
+            if is_call(v, 'Float::sqrt', 'f64::sqrt') and is_call(v[2][0], 'ArrayBase::sum'):
+                m = v[2][0][2][0]
+                if is_call(m, 'ArrayBase::map', 'ArrayBase::mapv') and m[2][0] == ('field', it, '1') and m[2][1][0] == 'closure':
+                    cb = ctx.facts.closure(m[2][1][1])
+                    cr = [e for _, e in Resolver(cb).return_expr()] if cb is not None else []
+                    if len(cr) == 1:
+                        e = cr[0]
+                        arg = ('param', cb.arg_names()[-1])
+                        val_ok = (is_call(e, 'Float::powi', 'f64::powi') and e[2][0] == arg and e[2][1] == ('const', 2)) or \
+                            (is_call(e, 'Mul::mul') and e[2][0] == arg and e[2][1] == arg) or (e[0] == 'bin' and e[1] == 'Mul' and e[2] == arg and e[3] == arg)
+            lits = [l for l in literals(b, R, w.bb) if not (l[0] == 'is' and is_call(l[1], 'Iterator::next'))]
+            good = src_ok and val_ok and not lits
+            why = 'norm[i] is not the Euclidean norm of row i of A for every row (rows=%s value=%s unconditional=%s)' % (src_ok, val_ok, not lits)
     (ctx.ok if good else ctx.bad)(rule, q + '#norms', 'norm[i, 0] = sqrt(sum_j A[i, j]^2) for every row i' if good else why, b.span)
     # radius row
     good = False
